@@ -10,7 +10,7 @@ import "verif/engine"
 // (a leaf that passes is a leaf that passes), so no coverage is lost.
 const (
 	classDegree0      = "degree-0"            // constant polynomial: panic (negative shift amount)
-	classBGVLazy      = "bgv-lazy-power-basis" // BGV/BFV with a non-relinearized power in the basis (Polynomial.Lazy or GenPower(..,lazy=true)): wrong values
+	classLazy         = "lazy-power-basis" // a non-relinearized power in the basis (Polynomial.Lazy or GenPower(..,lazy=true)): wrong values, both schemes
 	classDeclaredEven = "declared-even"       // IsOdd=false and a constant quotient in the Paterson-Stockmeyer split: wrong values
 )
 
@@ -18,8 +18,8 @@ func knownClass(scheme string, sh shape, kind, entry int, declared bool) string 
 	switch {
 	case sh.degree == 0:
 		return classDegree0
-	case scheme == "bgv" && (kind == kPolyLazy || entry == eFromPBPreLazy) && sh.degree >= 3:
-		return classBGVLazy
+	case (kind == kPolyLazy || entry == eFromPBPreLazy) && sh.degree >= 3:
+		return classLazy
 	case declared && sh.parity == 2:
 		return classDeclaredEven
 	}
